@@ -18,7 +18,7 @@ DT = {"i4": 1025, "i8": 2049, "i16": 4097, "i24": 6145, "i32": 8193, "i64": 1638
 DT_BITS = {k: (v >> 8) & 0xff for k, v in DT.items()}
 
 OP_CLASS = {"src": "defs", "sig": "defs", "srcs": "defs", "sigs": "defs", "sigq": "defs", "ud": "udata", "udr": "udata",
-            "fsr": "fsr", "len": "fsr", "rd": "fsr", "omit": "fsr", "anno": "anno", "an": "anno", "utc": "utc", "ut": "utc",
+            "fsr": "fsr", "len": "fsr", "rd": "fsr", "rdn": "fsr", "omit": "fsr", "anno": "anno", "an": "anno", "utc": "utc", "ut": "utc",
             "st": "stats", "wopen": "io", "wclose": "io", "ropen": "io", "wflush": "io", "topen": "io"}
 
 
@@ -85,6 +85,12 @@ def compare_case(script, impl, model):
             ok = False
             for j in range(0, opt + 1):
                 exp = mi[j:]
+                if stop > 0 and name == "ut":
+                    # UTC entries are delivered in batches: the iteration ends after the batch that reaches `stop`
+                    if ai == exp[:len(ai)] and len(ai) >= min(stop, len(exp)):
+                        ok = True
+                        break
+                    continue
                 if stop > 0:
                     exp = exp[:stop]
                 if exp == ai:
